@@ -7,6 +7,7 @@ package main
 // each input record reports (Data) and what CoalesceMessages made of them.
 
 import (
+	"encoding/json"
 	"flag"
 	"fmt"
 	"math/rand"
@@ -15,6 +16,7 @@ import (
 	"sort"
 	"strconv"
 	"strings"
+	"time"
 
 	"gopkg.in/yaml.v3"
 
@@ -122,6 +124,15 @@ func nzClassifiable(k string) bool {
 	return true
 }
 
+func resolveKeyKnown(k string) bool {
+	switch k {
+	case "uid", "auid", "euid", "suid", "fsuid", "ouid", "obj_uid", "old-auid", "old_auid", "new-auid", "new_auid", "oauid", "sauid", "iuid",
+		"gid", "egid", "sgid", "fsgid", "ogid", "obj_gid", "new_gid", "igid":
+		return true
+	}
+	return false
+}
+
 func nzWord(r *rand.Rand) string {
 	const cs = "ghijklmnopqrstuvwxyz" // no hex digits: such values are never taken for hex-encoded strings
 	n := 2 + r.Intn(7)
@@ -146,7 +157,9 @@ func nzValue(r *rand.Rand, key string) string {
 		}
 		return `"/usr/sbin/` + nzWord(r) + `"`
 	case key == "id" || key == "new_gid" || key == "old-auid" || key == "ouid" || key == "ogid" || strings.HasSuffix(key, "uid") || strings.HasSuffix(key, "gid"):
-		return []string{"0", "1000", "4294967295", "-1", strconv.Itoa(r.Intn(60000))}[r.Intn(5)]
+		return []string{"0", "1000", "1001", "5", "60", "4294967295", "-1", strconv.Itoa(r.Intn(60000))}[r.Intn(8)]
+	case key == "acct" && r.Intn(2) == 0:
+		return `"` + []string{"root", "toor", "alice", "al", "bob", "games", "nobodyknows"}[r.Intn(7)] + `"`
 	case key == "acct" || key == "terminal" || key == "hostname" || key == "grp" || key == "comm" || key == "cmd" || key == "name" || key == "path" || key == "unit":
 		return `"` + nzWord(r) + `"`
 	}
@@ -156,11 +169,18 @@ func nzValue(r *rand.Rand, key string) string {
 	return nzWord(r)
 }
 
+func nzID(r *rand.Rand) int {
+	if r.Intn(2) == 0 {
+		return []int{0, 1000, 1001, 5, 60}[r.Intn(5)]
+	}
+	return r.Intn(2000)
+}
+
 func nzUserBody(r *rand.Rand, keys []string) string {
 	var sb strings.Builder
 	fmt.Fprintf(&sb, "pid=%d", 1+r.Intn(30000))
 	if r.Intn(8) != 0 {
-		fmt.Fprintf(&sb, " uid=%d", []int{0, 1000, r.Intn(60000)}[r.Intn(3)])
+		fmt.Fprintf(&sb, " uid=%d", []int{0, 1000, 1001, 5, r.Intn(60000)}[r.Intn(5)])
 	}
 	if r.Intn(5) != 0 {
 		fmt.Fprintf(&sb, " auid=%s", []string{"0", "1000", "4294967295", strconv.Itoa(r.Intn(60000))}[r.Intn(4)])
@@ -198,8 +218,24 @@ func normalizeRunCmd(args []string) int {
 	seed := fs.Int64("seed", 1, "seed")
 	reps := fs.Int("reps", 3, "events per (entry, record type or syscall, shape)")
 	repo := fs.String("repo", "/repo", "repository root")
+	resolveOut := fs.String("resolve-out", "", "also resolve the ids of every event over an injected user/group database and write res records here (Resolve.tla)")
 	fs.Parse(args)
 	rng := newRand(*seed, 31)
+	// the databases behind the caches (verif hook); aliases and unknown ids included
+	dbU := map[string]string{"0": "root", "1000": "alice", "1001": "bob", "5": "games"}
+	dbUn := map[string]string{"root": "0", "toor": "0", "alice": "1000", "al": "1000", "bob": "1001", "games": "5"}
+	dbG := map[string]string{"0": "root", "1000": "staff", "60": "games"}
+	dbGn := map[string]string{"root": "0", "wheel": "0", "staff": "1000", "games": "60"}
+	var rw *ndWriter
+	var users, groups *aucoalesce.EntityCache
+	if *resolveOut != "" {
+		rw = newNDWriter(*resolveOut)
+		rw.write(map[string]interface{}{"k": "meta", "family": "resolve"})
+		rw.write(map[string]interface{}{"k": "db", "users": map[string]interface{}{"by_id": dbU, "by_name": dbUn},
+			"groups": map[string]interface{}{"by_id": dbG, "by_name": dbGn}})
+		users = aucoalesce.VerifNewEntityCache(time.Hour, func(k string) string { return dbU[k] }, func(k string) string { return dbUn[k] })
+		groups = aucoalesce.VerifNewEntityCache(time.Hour, func(k string) string { return dbG[k] }, func(k string) string { return dbGn[k] })
+	}
 	table := loadNormTable(*repo)
 	ws := make([]*ndWriter, *shards)
 	for i := range ws {
@@ -274,7 +310,7 @@ func normalizeRunCmd(args []string) int {
 		}
 		body := fmt.Sprintf(`arch=%s syscall=%s success=%s exit=%s a0=%x a1=%x a2=%x a3=%x items=%d ppid=%d pid=%d auid=%s uid=%d gid=%d euid=%d suid=%d fsuid=%d egid=%d sgid=%d fsgid=%d tty=pts0 ses=%d`,
 			an[0], an[1], succ, exit, rng.Intn(1<<20), rng.Intn(1<<20), rng.Intn(1<<20), rng.Intn(1<<20), items, 1+rng.Intn(30000), 1+rng.Intn(30000),
-			[]string{"0", "1000", "4294967295"}[rng.Intn(3)], rng.Intn(2000), rng.Intn(2000), rng.Intn(2000), rng.Intn(2000), rng.Intn(2000), rng.Intn(2000), rng.Intn(2000), rng.Intn(2000), 1+rng.Intn(500))
+			[]string{"0", "1000", "4294967295"}[rng.Intn(3)], nzID(rng), nzID(rng), nzID(rng), nzID(rng), nzID(rng), nzID(rng), nzID(rng), nzID(rng), 1+rng.Intn(500))
 		if rng.Intn(6) != 0 {
 			body += fmt.Sprintf(` comm="%s"`, nzWord(rng))
 		}
@@ -288,7 +324,7 @@ func normalizeRunCmd(args []string) int {
 		if rng.Intn(8) != 0 {
 			b += fmt.Sprintf(` name="/%s/%s"`, nzWord(rng), nzWord(rng))
 		}
-		b += fmt.Sprintf(` inode=%d dev=08:01 mode=0100644 ouid=%d ogid=%d rdev=00:00`, 1+rng.Intn(100000), rng.Intn(2000), rng.Intn(2000))
+		b += fmt.Sprintf(` inode=%d dev=08:01 mode=0100644 ouid=%d ogid=%d rdev=00:00`, 1+rng.Intn(100000), nzID(rng), nzID(rng))
 		if nt != "" {
 			b += " nametype=" + nt
 		}
@@ -419,6 +455,50 @@ func normalizeRunCmd(args []string) int {
 		}
 		ws[trace%len(ws)].write(map[string]interface{}{"k": "nev", "trace": trace, "shape": shape, "recs": recs, "interp": interp, "numerics": numl,
 			"data_final": df, "got": got})
+		if rw != nil {
+			snap := func() (map[string]interface{}, string) {
+				ids := map[string]string{}
+				for k, v := range ev.User.IDs {
+					if !resolveKeyKnown(k) {
+						fatal("User.IDs key %q is in neither key set of Resolve.tla", k)
+					}
+					ids[k] = v
+				}
+				names := map[string]string{}
+				for k, v := range ev.User.Names {
+					names[k] = v
+				}
+				o := map[string]interface{}{"actor_primary": ev.Summary.Actor.Primary, "actor_secondary": ev.Summary.Actor.Secondary, "ids": ids, "names": names,
+					"has_file": ev.File != nil, "file_uid": "", "file_gid": "", "file_owner": "", "file_group": "",
+					"ecs": map[string]interface{}{"user": ent(ev.ECS.User.ECSEntityData), "effective": ent(ev.ECS.User.Effective), "target": ent(ev.ECS.User.Target),
+						"changes": ent(ev.ECS.User.Changes), "group": ent(ev.ECS.Group)}}
+				if ev.File != nil {
+					o["file_uid"], o["file_gid"], o["file_owner"], o["file_group"] = ev.File.UID, ev.File.GID, ev.File.Owner, ev.File.Group
+				}
+				// everything ResolveIDs has no business with
+				b, _ := json.Marshal(ev)
+				var rest map[string]interface{}
+				json.Unmarshal(b, &rest)
+				delete(rest, "ecs")
+				if sm, ok := rest["summary"].(map[string]interface{}); ok {
+					delete(sm, "actor")
+				}
+				if um, ok := rest["user"].(map[string]interface{}); ok {
+					delete(um, "names")
+				}
+				if fm, ok := rest["file"].(map[string]interface{}); ok {
+					delete(fm, "owner")
+					delete(fm, "group")
+				}
+				rb, _ := json.Marshal(rest)
+				return o, string(rb)
+			}
+			before, rest1 := snap()
+			aucoalesce.ResolveIDsFromCaches(ev, users, groups)
+			after, rest2 := snap()
+			rw.write(map[string]interface{}{"k": "res", "trace": trace, "before": before, "after": after, "unchanged": rest1 == rest2})
+			stats["resolved"]++
+		}
 		stats["events"]++
 		stats["shape_"+shape]++
 	}
@@ -471,6 +551,9 @@ func normalizeRunCmd(args []string) int {
 	}
 	for _, w := range ws {
 		w.close()
+	}
+	if rw != nil {
+		rw.close()
 	}
 	printJSON(map[string]interface{}{"stats": stats})
 	return 0
